@@ -166,4 +166,4 @@ def run(tier):
         "dataflow non-interference: on producer sides it is read once and reaches the token text only below the fixed-length tag / signature, format_token reads only header and footer; "
         "the ImplicitAssertion carrier is the identity on content; wrappers and setters forward it; set_implicit_assertion exists only under ImplicitAssertionCapable",
         ["MAC / signature strength: another assertion yields another tag", "PreAuthenticationEncoding::parse / le64 are evaluated abstractly (R6, shared with C08.R7): LE64(count) || (LE64(len) || piece)* - an injective framing"],
-        extra, "that any other assertion fails authentication (MAC / signature strength)")
+        extra, "that any other assertion fails authentication (MAC / signature strength)", sem_rules={'C06.S1': 4, 'C06.S2': 4})
